@@ -8,6 +8,7 @@ from typing import List
 from harness.lib.core import VERIF, Ctx, lean_lock, run_driver, shrink_ops
 from harness.extract import database as x_db
 from harness.extract import database_tr as x_tr
+from harness.extract import database_ftp_tr as x_ftp
 from harness.rigs import database as rig
 
 MANIFEST = {
@@ -47,7 +48,8 @@ MANIFEST = {
                  "translation of seven methods, and a differential rig",
     "design_ref": "5/C17",
 }
-MODULES = ["PrimaiteModel.Props.C17", "PrimaiteModel.Props.C17Run", "PrimaiteModel.Props.C17Recv", "PrimaiteModel.Lemmas.DatabaseReach"]
+MODULES = ["PrimaiteModel.Props.C17", "PrimaiteModel.Props.C17Run", "PrimaiteModel.Props.C17Recv", "PrimaiteModel.Props.C17Ftp",
+           "PrimaiteModel.Lemmas.DatabaseReach"]
 EXE = "drv_c17"
 
 
@@ -112,6 +114,10 @@ def run(ctx: Ctx):
         ctx.extract(x_tr.GEN_NAME, x_tr.emit)
         for fname, *_ in x_tr.FUNCS:   # one obligation per translated method: an untranslatable one does not hide the others
             ctx.oblige(f"translate:{fname}", "extractor", fname not in x_tr.FAILED, x_tr.FAILED.get(fname, ""))
+        ctx.extract(x_ftp.GEN_NAME, x_ftp.emit)
+        for fname, why in sorted(x_ftp.FAILED.items()):
+            ctx.oblige(f"translate-ftp:{fname}", "extractor", False, why)
+        ctx.oblige("translate-ftp:all-22-methods", "extractor", not x_ftp.FAILED, "; ".join(sorted(x_ftp.FAILED)))
         ctx.prove(MODULES, exes=[EXE], clean=False, leanchecker=ctx.thorough)
     ctx.cov["rule"] = ("case = (number of clients 1..4, session limit, passwords, durations, ransomware presence, op sequence over "
                        "connect / handle+raw+native query / disconnect / forged+foreign ids / execute / uninstall+install / "
